@@ -511,3 +511,11 @@ package types
 //@   loop 2 step advance: lower == $head(lower) + maxTokensPerLine && maxTokensPerLine == 30
 //@   at call Join#1 assert chunk: len($arg0) <= 30
 //@ end
+
+// C11 — the userlists changed only if what was added differs from what was removed
+// (a secret re-read with the same content is not a change)
+//@ func (*Userlists).Changed
+//@   props C11
+//@   inline
+//@   ensures def: result == !deepEq(iface(u.itemsAdd), iface(u.itemsDel))
+//@ end
